@@ -104,8 +104,9 @@ SETUP = (
 
 def setup_src(shape, kind="A"):
     """source defining a (bare), x (parent), q (a scalar quantity) for a shape.
-    kind: 'A' unyt_array of that shape; 'Q' unyt_quantity (shape must be ()); 'Q1' the size-1
-    non-scalar quantity q[None] (shape (1,)); 'S' user subclass of unyt_array"""
+    kind: 'A' unyt_array of that shape; 'Q' unyt_quantity (shape must be ()); 'Q1' a size-1
+    non-scalar quantity (shape (1,), built with the constructor from a one-element ndarray);
+    'S' user subclass of unyt_array"""
     src = SETUP + f"a = (np.arange({int(np.prod(shape)) if shape else 1}, dtype=float) + 1.0).reshape({tuple(shape)!r})\n"
     src += "q = unyt_quantity(3.0, 'm', name='p')\n"
     if kind == "A":
@@ -113,7 +114,7 @@ def setup_src(shape, kind="A"):
     elif kind == "Q":
         src += "x = unyt_quantity(float(a), 'm', name='p')\n"
     elif kind == "Q1":
-        src += "x = unyt_quantity(float(a.flat[0]), 'm', name='p')[None]\n"
+        src += "x = unyt_quantity(np.array([float(a.flat[0])]), 'm', name='p')\n"
     elif kind == "S":
         src += "x = subA(a.copy(), 'm', name='p')\n"
     else:
